@@ -9,6 +9,7 @@ I/O boundaries and real SIGKILL timing inside one `write(2)` are not exhibited b
 directories are a matter of path arithmetic, exercised by the correspondence run only.
 -/
 import Hpv.StoreProofs
+import Hpv.TagsProofs
 
 namespace Hpv.Props.C07
 open Hpv.Store
@@ -59,6 +60,26 @@ theorem fetch_only_if_missing (remote : Key → Option Bytes) (tags : Ty → Lis
 /-- **Omitting the release selects the greatest available tag**; no tag at all is an error. -/
 theorem latest_release (l : List Nat) :
     (maxTag l = none ↔ l = []) ∧ ∀ m, maxTag l = some m → m ∈ l ∧ ∀ y ∈ l, y ≤ m := maxTag_spec l
+
+/-- **... where "available" means the production tags the GitHub tag API lists** (`_github.py`: `production_tag_pt`
+and `max` over the filtered names in Python's string order): the latest release is a listed production tag that no
+listed production tag exceeds; there is none exactly when no listed name is a production tag; and a name is a
+production tag exactly when it is `v` + 4 digits + `-` + 2 digits + `-` + 2 digits (every month and day number). -/
+theorem latest_production_tag (names : List Hpv.Tags.Str) :
+    (match Hpv.Tags.latest names with
+     | none => ∀ t ∈ names, Hpv.Tags.prodTag t = false
+     | some r => r ∈ names ∧ Hpv.Tags.prodTag r = true ∧
+         ∀ t ∈ names, Hpv.Tags.prodTag t = true → Hpv.Tags.lexLt r t = false) ∧
+    ∀ s, Hpv.Tags.prodTag s = true ↔
+      ∃ y1 y2 y3 y4 m1 m2 a1 a2, s = [118, y1, y2, y3, y4, 45, m1, m2, 45, a1, a2] ∧
+        Hpv.Tags.isDigit y1 = true ∧ Hpv.Tags.isDigit y2 = true ∧ Hpv.Tags.isDigit y3 = true ∧ Hpv.Tags.isDigit y4 = true ∧
+        Hpv.Tags.isDigit m1 = true ∧ Hpv.Tags.isDigit m2 = true ∧ Hpv.Tags.isDigit a1 = true ∧ Hpv.Tags.isDigit a2 = true :=
+  ⟨Hpv.Tags.latest_spec names, Hpv.Tags.prodTag_iff⟩
+
+-- non-vacuity: "v2021-10-10" beats "v2021-09-30" and "v2021-10-10X" / "2021-11-01" are not production tags
+example : Hpv.Tags.latest [[118,50,48,50,49,45,48,57,45,51,48], [118,50,48,50,49,45,49,48,45,49,48],
+    [118,50,48,50,49,45,49,48,45,49,48,88], [50,48,50,49,45,49,49,45,48,49]] =
+    some [118,50,48,50,49,45,49,48,45,49,48] := by decide
 
 /-- **Recovery**: whatever failures, kills, races and clears happened before, a later undisturbed load from a healthy
 remote succeeds and returns the remote's content. -/
